@@ -170,6 +170,45 @@ pub fn run(ctx: &mut Ctx) {
                 Err(p) => ctx.violation(&format!("wide/panic/{}", p.signature()), &format!("{:?}", p), J::i(w as u64)),
             }
         }
+        // the string helper and degenerate replace calls, judged against the plain adders
+        if case % 5 == 2 {
+            ctx.eval();
+            ctx.count("helper_equivalences");
+            let recv = Envelope::new(format!("r-{}", case)).add_assertion("k", case);
+            let strs = ["", " ", "\t", "\r\n", "  x", "\u{a0}", "\u{3000}", "0", "a", "A longer string with  spaces "];
+            for st in strs {
+                let r = trap::guard(|| recv.add_nonempty_string_assertion("note", st));
+                let want = if st.is_empty() { recv.clone() } else { recv.add_assertion("note", st) };
+                match r {
+                    Ok(x) => {
+                        if env_bytes(&x) != env_bytes(&want) {
+                            ctx.violation("helper/add_nonempty_string_assertion", &format!("add_nonempty_string_assertion with {:?} differs from add_assertion (the empty string alone is skipped)", st), jhex(&x));
+                        }
+                    }
+                    Err(p) => ctx.violation(&format!("helper/panic/{}", p.signature()), &format!("{:?}", p), J::s(st)),
+                }
+            }
+            // replace_assertion(old, new) is remove(old) then add(new) - also when old is absent, when old and new
+            // are the same assertion, and when new is not an assertion (an error, as for the adders)
+            let absent = Envelope::new_assertion("absent", case);
+            let present = recv.assertions()[0].clone();
+            let not_an_assertion = Envelope::new("just a leaf");
+            for (label, old, newa) in [("absent-by-itself", absent.clone(), absent.clone()), ("present-by-itself", present.clone(), present.clone()), ("absent-by-present", absent.clone(), present.clone()), ("present-by-absent", present.clone(), absent.clone()), ("nonassertion-by-itself", not_an_assertion.clone(), not_an_assertion.clone())] {
+                let got = trap::guard(|| recv.replace_assertion(old.clone(), newa.clone()));
+                let want = recv.remove_assertion(old.clone()).add_assertion_envelope(newa.clone());
+                match (got, want) {
+                    (Ok(Ok(g)), Ok(w)) => {
+                        if env_bytes(&g) != env_bytes(&w) {
+                            ctx.violation(&format!("replace-vs-remove-add/{}", label), "replace_assertion(old, new) differs from remove_assertion(old) followed by add_assertion_envelope(new)", jhex(&g));
+                        }
+                    }
+                    (Ok(Err(_)), Err(_)) => {}
+                    (Ok(Ok(g)), Err(_)) => ctx.violation(&format!("replace-vs-remove-add/{}/accepted", label), "replace_assertion accepted what the adders refuse", jhex(&g)),
+                    (Ok(Err(err)), Ok(_)) => ctx.violation(&format!("replace-vs-remove-add/{}/refused", label), &format!("replace_assertion refused what remove + add accept: {}", err), J::Null),
+                    (Err(p), _) => ctx.violation(&format!("replace/panic/{}", p.signature()), &format!("{:?}", p), J::Null),
+                }
+            }
+        }
         // subject + k distinct assertion elements
         let kmax = if case % 10 == 0 { 5 } else { 4 };
         let kmax = if ctx.tier == crate::ctx::Tier::Thorough { 5 } else { kmax };
